@@ -28,7 +28,7 @@ func init() {
 	Registry["C14"] = &Prop{
 		Plan: func(tier string) Plan {
 			return Plan{Level: "exploration", NCases: c14EnumCases + pick(tier, 24, 600), Batch: 4, CaseTimeout: 120,
-				Rule: "cases 0-7: ALL interleavings of the steps of 3 candidates (34650) and of 2 candidates (70), each candidate running Get->(Create|Update) twice as client-go's tryAcquireOrRenew issues them, on memkv through the real resourcelock.Interface, split over 8 cases and checked in lock-step against a register model (Create succeeds iff absent; Update succeeds iff the stored bytes equal what this candidate last read; stored record == last successful write; uncontended Get->Update succeeds). " +
+				Rule: "cases 0-7: ALL interleavings of the steps of 3 candidates (34650) and of 2 candidates (70), each candidate running Get->(Create|Update) twice as client-go's tryAcquireOrRenew issues them (plus all 252 interleavings of 2 candidates running Get,write,write,Get,write, i.e. a rejected write retried without a fresh Get), on memkv through the real resourcelock.Interface, split over 8 cases and checked in lock-step against a register model (Create succeeds iff absent; Update succeeds iff the stored bytes equal what this candidate last read; stored record == last successful write; uncontended Get->Update succeeds). " +
 					"further cases: PRNG samples of 300 interleavings on Badger / TiKV mock / locks obtained from real backends, and concurrent goroutine stress with commit delays whose recorded history is checked with porcupine against a compare-and-swap register. Every record written carries a unique counter. " +
 					"non-trivial = interleaving in which >=2 candidates wrote from the same observed record (so at least one write had to fail); distinct by interleaving",
 				Assumptions: []string{"lease timing is not modelled: candidates always try to take the lock, which exercises strictly more write attempts than client-go would make",
@@ -130,6 +130,7 @@ func lockStep(kv storage.KvStorage, key []byte, stored *[]byte, cd *candidate, s
 				cd.lastRead, cd.hasRead = append([]byte{}, raw...), true
 				return fmt.Sprintf("%s:create#%d->ok", cd.id, rec.LeaderTransitions), "", false
 			}
+			*sawNotFound = false // the create was rejected: a record exists now, a further write is an Update
 			return fmt.Sprintf("%s:create#%d->fail", cd.id, rec.LeaderTransitions), "", true
 		}
 		err := cd.lock.Update(rec)
@@ -159,6 +160,12 @@ func short(b []byte) string {
 
 // runInterleaving executes one interleaving (sequence of candidate indexes) on a fresh lock key.
 func runInterleaving(c *harness.Case, kv storage.KvStorage, order []int, nCand int, viaBackend bool, engine string) (failedWrites int, ok bool) {
+	return runInterleavingProg(c, kv, order, nCand, viaBackend, engine, "gwgw")
+}
+
+// runInterleavingProg: prog is each candidate's step sequence ('g' = Get, 'w' = Create/Update). A 'w' that
+// follows a rejected Create is an Update (the candidate now believes the record exists).
+func runInterleavingProg(c *harness.Case, kv storage.KvStorage, order []int, nCand int, viaBackend bool, engine string, prog string) (failedWrites int, ok bool) {
 	cs, key, nodes := newCandidates(kv, nCand, viaBackend)
 	defer func() {
 		for _, nd := range nodes {
@@ -168,7 +175,6 @@ func runInterleaving(c *harness.Case, kv storage.KvStorage, order []int, nCand i
 	var stored []byte
 	pos := make([]int, nCand)
 	notFound := make([]bool, nCand)
-	prog := "gwgw"
 	var trace []string
 	for _, ci := range order {
 		st := prog[pos[ci]]
@@ -193,15 +199,17 @@ func runInterleaving(c *harness.Case, kv storage.KvStorage, order []int, nCand i
 }
 
 // interleavings enumerates all merges of n programs of length 4, calling f with each.
-func interleavings(n int, f func(order []int) bool) {
+func interleavings(n int, f func(order []int) bool) { interleavingsLen(n, 4, f) }
+
+func interleavingsLen(n, steps int, f func(order []int) bool) {
 	rem := make([]int, n)
 	for i := range rem {
-		rem[i] = 4
+		rem[i] = steps
 	}
-	order := make([]int, 0, 4*n)
+	order := make([]int, 0, steps*n)
 	var rec func() bool
 	rec = func() bool {
-		if len(order) == 4*n {
+		if len(order) == steps*n {
 			return f(order)
 		}
 		for i := 0; i < n; i++ {
@@ -241,6 +249,20 @@ func runC14Enumerate(c *harness.Case) {
 			if c.Index == 0 && idx == 8 {
 				c.R.Sample = map[string]interface{}{"engine": "memkv", "candidates": nCand, "interleaving": fmt.Sprint(order), "failed_writes": fw}
 			}
+			return ok
+		})
+	}
+	// programs in which a rejected write is retried WITHOUT a fresh Get (client-go never does this, the property
+	// quantifies over all step interleavings): 2 candidates x "gwwgw", all 252 interleavings
+	if c.Index == 0 {
+		interleavingsLen(2, 5, func(order []int) bool {
+			fw, ok := runInterleavingProg(c, eng.KV, order, 2, false, "memkv", "gwwgw")
+			if fw > 0 {
+				c.AddExecution(fmt.Sprintf("memkv/retry-without-get/%v", order))
+			} else {
+				c.AddExecution("")
+			}
+			c.Stat("memkv_retry_without_get_interleavings", 1)
 			return ok
 		})
 	}
@@ -285,7 +307,26 @@ func runC14Sample(c *harness.Case) {
 		if via {
 			label = "memkv-via-backend"
 		}
-		fw, ok := runInterleaving(c, eng.KV, order, nCand, via, label)
+		var fw int
+		var ok bool
+		if i%3 == 2 {
+			// retry-without-get programs, 5 steps each
+			order = order[:0]
+			rem2 := make([]int, nCand)
+			for j := range rem2 {
+				rem2[j] = 5
+			}
+			for len(order) < 5*nCand {
+				ci := r.Intn(nCand)
+				if rem2[ci] > 0 {
+					rem2[ci]--
+					order = append(order, ci)
+				}
+			}
+			fw, ok = runInterleavingProg(c, eng.KV, order, nCand, via, label, "gwwgw")
+		} else {
+			fw, ok = runInterleaving(c, eng.KV, order, nCand, via, label)
+		}
 		if fw > 0 {
 			c.AddExecution(fmt.Sprintf("%s/%d/%v", label, nCand, order))
 		} else {
